@@ -159,7 +159,7 @@ class C02(SolverSuite):
         actors = {"S0": spec}
         ops = G.sprinkle_evq(rng, ops, "S0", spec)
         ops = _maybe_company(rng, actors, ops)
-        return G.base_plan(self.prop, run_seed, actors, ops, clock=G.gen_clock(rng))
+        return gen_self_reads(rng, G.base_plan(self.prop, run_seed, actors, ops, clock=G.gen_clock(rng)))
 
     def cases(self, rng, tier, run_seed, idx=0):
         if tier == "thorough" and idx % 1500 == 77:
@@ -229,6 +229,7 @@ class C03(SolverSuite):
         ops = G.sprinkle_evq(rng, ops, "S0", spec, prob=0.1)
         plan = G.base_plan(self.prop, run_seed, {"S0": spec}, ops, clock=G.gen_clock(rng))
         plan["edge"] = edge
+        gen_self_reads(rng, plan)
         if rng.random() < 0.12:
             # fault configuration: the objective raises once - inside a DoGlobalIteration batch (the caller catches it) or
             # inside Solve (contained) - and the caller goes on to Solve: the budget must still bind
@@ -325,6 +326,7 @@ class C04(SolverSuite):
         plan = G.base_plan(self.prop, run_seed, actors, ops, clock=G.gen_clock(rng))
         if "S1" in actors and rng.random() < 0.5:
             plan["nested"] = gen_nested(rng, plan, max_entries=2)
+        gen_self_reads(rng, plan)
         if spec["params"].get("refineSolution") and not spec.get("listeners") and rng.random() < 0.3:
             # fault configuration with refinement on: the failing evaluation may be a global trial, any Nelder-Mead
             # evaluation, or the final re-evaluation of the refined point (contained by Solve; the driver goes on)
@@ -384,6 +386,8 @@ class C05(SolverSuite):
             ops.append({"a": "S0", "op": rng.choice(["refine", "solve"]), "n": rng.choice([-1, 5, 50])})
             ops.append({"a": "S0", "op": "results"})
         ops = G.sprinkle_evq(rng, ops, "S0", spec)
+        if rng.random() < 0.1:
+            return gen_self_reads(rng, G.base_plan(self.prop, run_seed, {"S0": spec}, ops, clock=G.gen_clock(rng)), prob=1.0)
         return transient_fault_then_continue(rng, G.base_plan(self.prop, run_seed, {"S0": spec}, ops, clock=G.gen_clock(rng)), prob=0.15)
 
     def nontrivial_key(self, plan, w):
@@ -420,6 +424,7 @@ class C06(SolverSuite):
         plan = G.base_plan(self.prop, run_seed, actors, ops, clock=G.gen_clock(rng))
         if "S1" in actors and rng.random() < 0.5:
             plan["nested"] = gen_nested(rng, plan, max_entries=2)
+        gen_self_reads(rng, plan)
         return maybe_fault(rng, plan)
 
     def nontrivial_key(self, plan, w):
@@ -466,7 +471,7 @@ class C20(SolverSuite):
                 ops1 = G.gen_single_ops(rng, aid, rng.choice([0, rng.randint(0, L1)]), with_solve=rng.random() < 0.7) if rng.random() < 0.8 \
                     else [{"a": aid, "op": "create"}]
                 ops = interleave(rng, [ops, ops1])
-        return transient_fault_then_continue(rng, G.base_plan(self.prop, run_seed, actors, ops, clock=G.gen_clock(rng)), prob=0.25, hi=L)
+        return transient_fault_then_continue(rng, gen_self_reads(rng, G.base_plan(self.prop, run_seed, actors, ops, clock=G.gen_clock(rng))), prob=0.25, hi=L)
 
     def nontrivial_key(self, plan, w):
         a = w.actors["S0"]
@@ -506,6 +511,21 @@ def maybe_fault(rng, plan, prob=0.1):
             plan["continue_after_fault"] = True
             for _ in range(rng.randint(1, 3)):
                 plan["ops"].append({"a": "S0", "op": rng.choice(["iterate", "iterate", "results", "solve"]), "k": rng.randint(1, 8)})
+    return plan
+
+
+def gen_self_reads(rng, plan, aid="S0", prob=0.12, max_entries=3):
+    """The host's own objective / listeners READ the host solver (GetResults, evolvent queries) in mid-operation."""
+    if rng.random() >= prob:
+        return plan
+    spec = plan["actors"][aid]
+    for _ in range(rng.randint(1, max_entries)):
+        at = rng.choice(["eval", "eval", "eval", "OnEndIteration", "OnMethodStop", "BeforeMethodStart"])
+        index = rng.randint(1, 30) if at in ("eval", "OnEndIteration") else 1
+        ops = [{"a": aid, "op": "results"}]
+        if rng.random() < 0.4:
+            ops.append(G.gen_evq(rng, aid, spec))
+        plan.setdefault("nested", []).append({"host": aid, "at": at, "index": index, "ops": ops})
     return plan
 
 
